@@ -5,7 +5,7 @@ allow = set(sys.argv[2].split(',')) if len(sys.argv) > 2 else set()
 N = int(sys.argv[1])
 cnt = collections.Counter()
 shown = collections.Counter()
-OPTS = [dict(), dict(inline_functions=False), dict(inline_functions=False, use_push_pop_functions=True), dict(remove_labels=True, compact=True)]
+OPTS = [dict(), dict(inline_functions=False), dict(inline_functions=False, use_push_pop_functions=True), dict(remove_labels=True, compact=True), dict(use_push_pop_functions=True), dict(inline_functions=False, tail_call_optimization=True), dict(tail_call_optimization=True, use_push_pop_functions=True, remove_labels=True)]
 for i in range(N):
     rnd = random.Random(i)
     src = G(rnd, allow).program()
